@@ -144,7 +144,7 @@ def real_groups(tier, seed):
             sizes = size_list(V, tier, rng) + ladder_sizes(V, tier, rng)[:: (1 if not quick else 4)]
             if quick:
                 # 4 and 9: the intrinsic specialisations _norm<float,4>, _norm<float,9>, _norm<double,4>, _norm<double,9>
-                sizes = sorted(set([1, 4, 9, V, V + 1, 2 * V + 3, sizes[-1]] + rng.sample(sizes, 3)))
+                sizes = sorted(set([1, 4, 9, V + 1, 2 * V + 3, sizes[-1]] + rng.sample(sizes, 2)))
             for n in sizes:
                 calls.append("rr::run_rsum<%s,%d>(%du);" % (t, n, ds + n))
             for m in range(1, 5 if quick else 9):
